@@ -1,4 +1,7 @@
 """Case generator for lane `enc` (property C13).  Every random choice comes from `rng`."""
+import os
+import subprocess
+import sys
 
 ENCODINGS = [
     "Big5", "EUC-JP", "EUC-KR", "gb18030", "GBK", "IBM866", "ISO-8859-2", "ISO-8859-3", "ISO-8859-4",
@@ -8,7 +11,9 @@ ENCODINGS = [
     "windows-1253", "windows-1254", "windows-1255", "windows-1256", "windows-1257", "windows-1258",
     "x-mac-cyrillic", "x-user-defined",
 ]
-MODELLED = ["UTF-8", "windows-1252", "ISO-8859-7"]
+MULTIBYTE = ["Big5", "EUC-JP", "EUC-KR", "gb18030", "GBK", "Shift_JIS"]
+MODELLED = [e for e in ENCODINGS if e not in MULTIBYTE]
+CORE = ["UTF-8", "windows-1252", "ISO-8859-7"]
 PYCODEC = {
     "Big5": "big5", "EUC-JP": "euc_jp", "EUC-KR": "euc_kr", "gb18030": "gb18030", "GBK": "gbk",
     "Shift_JIS": "shift_jis", "UTF-8": "utf-8",
@@ -97,7 +102,8 @@ def rand_cuts(rng, n):
 
 
 def gen_dec(rng):
-    enc = rng.choice(MODELLED) if rng.random() < 0.55 else rng.choice(ENCODINGS)
+    r0 = rng.random()
+    enc = rng.choice(CORE) if r0 < 0.25 else rng.choice(MULTIBYTE) if r0 < 0.5 else rng.choice(ENCODINGS)
     r = rng.random()
     if r < 0.55:
         size = rng.randrange(0, 40)
@@ -129,7 +135,7 @@ def rand_str(rng, nchars):
 
 
 def gen_tenc(rng, big=False):
-    enc = rng.choice(MODELLED[1:] + ["UTF-8"]) if rng.random() < 0.55 else rng.choice(ENCODINGS)
+    enc = rng.choice(CORE) if rng.random() < 0.25 else rng.choice(ENCODINGS)
     if big:
         # >= 1 MiB of content: TextEncoder switches to the heap buffer (text_encoder.rs:33)
         unit = rng.choice(["\u00e9", "\u00e9a", "\u20ac\u0416"])
@@ -183,7 +189,9 @@ def gen_resync(rng):
 
 
 META_LABELS = ["utf-8", "UTF-8", "utf8", "windows-1252", "latin1", "iso-8859-1", "ascii", "iso-8859-7", "greek",
-               "bogus", "utf-16le", "utf-16be", "utf-16", "iso-2022-jp", "replacement", "x"]
+               "bogus", "utf-16le", "utf-16be", "utf-16", "iso-2022-jp", "replacement", "x",
+               "koi8-r", "windows-1251", "cp866", "x-user-defined", "iso-8859-2", "Latin2", "macintosh", "tis-620",
+               "csiso2022kr", "hz-gb-2312", "iso-8859-8-i", "logical", "windows-1258"]
 
 
 def meta_doc(script):
@@ -201,7 +209,7 @@ def meta_doc(script):
 
 
 def gen_meta(rng):
-    enc = rng.choice(MODELLED)
+    enc = rng.choice(CORE) if rng.random() < 0.5 else rng.choice(MODELLED)
     adjust = 1 if rng.random() < 0.85 else 0
     script = []
     for _ in range(rng.randrange(1, 9)):
@@ -222,7 +230,10 @@ def gen_meta(rng):
 
 COMPAT_LABELS = ["utf-8", "windows-1252", "iso-8859-7", "gbk", "shift_jis", "big5", "euc-jp", "euc-kr", "gb18030",
                  "koi8-r", "x-user-defined", "macintosh", "utf-16le", "utf-16be", "utf-16", "iso-2022-jp",
-                 "csiso2022jp", "unicode", "ucs-2", "replacement", "bogus", "iso-2022-kr", "hz-gb-2312"]
+                 "csiso2022jp", "unicode", "ucs-2", "replacement", "bogus", "iso-2022-kr", "hz-gb-2312",
+                 "cp866", "latin1", "l2", "tis-620", "x-sjis", "ms_kanji", "x-gbk", "chinese", "big5-hkscs",
+                 "korean", "x-euc-jp", "utf-7", "UTF-8", "Windows-1251", "csunicode", "unicodefffe",
+                 "unicodefeff", "iso-8859-8-i", "visual", "logical", "x-mac-roman", "x-mac-ukrainian", "dos-874"]
 
 
 def gen_loc(rng):
@@ -235,6 +246,95 @@ def gen_loc(rng):
     if rng.random() < 0.5 and len(text) > 1:
         cuts = [3 + rng.randrange(1, len(text))]
     return "loc %s %s %s" % (enc, hexs(text), ",".join(map(str, cuts)) or "-")
+
+
+# ---------------------------------------------------------------- index facts for the multi-byte machines
+
+
+def _windows(enc, data):
+    """(table, pointer, bytes) for every window of consecutive bytes the WHATWG decoder of `enc` could look up"""
+    out = []
+    n = len(data)
+    for i in range(n - 1):
+        l, t = data[i], data[i + 1]
+        if enc == "EUC-KR":
+            if 0x81 <= l <= 0xFE and 0x41 <= t <= 0xFE:
+                out.append(("k", (l - 0x81) * 190 + (t - 0x41), data[i:i + 2]))
+        elif enc == "Big5":
+            if 0x81 <= l <= 0xFE and (0x40 <= t <= 0x7E or 0xA1 <= t <= 0xFE):
+                p = (l - 0x81) * 157 + (t - (0x40 if t < 0x7F else 0x62))
+                if p not in (1133, 1135, 1164, 1166):
+                    out.append(("b", p, data[i:i + 2]))
+        elif enc == "Shift_JIS":
+            if (0x81 <= l <= 0x9F or 0xE0 <= l <= 0xFC) and (0x40 <= t <= 0x7E or 0x80 <= t <= 0xFC):
+                p = (l - (0x81 if l < 0xA0 else 0xC1)) * 188 + t - (0x40 if t < 0x7F else 0x41)
+                if not 8836 <= p <= 10715:
+                    out.append(("j", p, data[i:i + 2]))
+        elif enc == "EUC-JP":
+            if 0xA1 <= l <= 0xFE and 0xA1 <= t <= 0xFE:
+                p = (l - 0xA1) * 94 + t - 0xA1
+                out.append(("j", p, data[i:i + 2]))
+                out.append(("x", p, b"\x8f" + data[i:i + 2]))
+        elif enc in ("gb18030", "GBK"):
+            if 0x81 <= l <= 0xFE and (0x40 <= t <= 0x7E or 0x80 <= t <= 0xFE):
+                out.append(("g", (l - 0x81) * 190 + t - (0x40 if t < 0x7F else 0x41), data[i:i + 2]))
+            if i + 3 < n:
+                d, t3, d2 = data[i + 1], data[i + 2], data[i + 3]
+                if 0x81 <= l <= 0xFE and 0x30 <= d <= 0x39 and 0x81 <= t3 <= 0xFE and 0x30 <= d2 <= 0x39:
+                    out.append(("r", (l - 0x81) * 12600 + (d - 0x30) * 1260 + (t3 - 0x81) * 10 + d2 - 0x30, data[i:i + 4]))
+    return out
+
+
+def _harness_bin():
+    here = os.path.dirname(os.path.dirname(os.path.abspath(__file__)))
+    return os.environ.get("VERIF_HARNESS_BIN", os.path.join(here, "harness", "target", "debug", "verif_harness"))
+
+
+def attach_facts(cases):
+    """Append the index facts (`<table>:<pointer>=<scalar>`) to every multi-byte `dec` case. The facts are
+    what the REAL encoding_rs decodes each 2/3/4-byte window to on its own (sub-lane `decq` of the harness):
+    the model's state machines are checked, the index data is taken as given. Without a harness binary the
+    cases stay impl-only."""
+    todo = []
+    for ci, c in enumerate(cases):
+        f = c.split(" ")
+        if f[0] == "dec" and f[1] in MULTIBYTE and len(f) == 6:
+            data = bytes.fromhex(f[4]) if f[4] != "-" else b""
+            seen = {}
+            for (tbl, ptr, win) in _windows(f[1], data):
+                seen.setdefault((tbl, ptr), win)
+            todo.append((ci, f[1], sorted(seen.items())))
+    if not todo:
+        return cases
+    binp = _harness_bin()
+    if not os.path.exists(binp):
+        sys.stderr.write("gen/enc.py: no harness binary, multi-byte dec cases stay impl-only\n")
+        return cases
+    lines = []
+    for (_, enc, items) in todo:
+        lines.append("decq %s %s" % (enc, ",".join(w.hex() for (_, w) in items) if items else "-"))
+    res = subprocess.run([binp, "enc"], input="\n".join(lines) + "\n", capture_output=True, text=True, timeout=600)
+    outs = res.stdout.split("\n")
+    if res.returncode != 0 or len(outs) < len(lines):
+        sys.stderr.write("gen/enc.py: decq oracle failed, multi-byte dec cases stay impl-only\n")
+        return cases
+    cases = list(cases)
+    for (ci, enc, items), o in zip(todo, outs):
+        facts = []
+        vals = o.split(",") if items else []
+        if len(vals) != len(items):
+            continue
+        for ((tbl, ptr), _w), v in zip(items, vals):
+            if v == "-":
+                continue
+            try:
+                txt = bytes.fromhex(v).decode("utf-8")
+            except (ValueError, UnicodeDecodeError):
+                continue
+            if len(txt) == 1 and txt != "\ufffd":
+                facts.append("%s:%d=%x" % (tbl, ptr, ord(txt)))
+        cases[ci] = cases[ci] + " " + (",".join(facts) if facts else "-")
+    return cases
 
 
 def gen(rng, n, tier, pid):
@@ -255,7 +355,7 @@ def gen(rng, n, tier, pid):
             out.append(gen_resync(rng))
         else:
             out.append(gen_meta(rng))
-    return out
+    return attach_facts(out)
 
 
 def stats(cases, obs):
@@ -268,9 +368,38 @@ def stats(cases, obs):
             d["dec:" + f[1]] = d.get("dec:" + f[1], 0) + 1
             if len(f[4]) > 2 * BUFFER_LEN:
                 d["dec:>1KiB"] = d.get("dec:>1KiB", 0) + 1
+            if len(f) == 7:
+                d["dec:facts:" + f[1]] = d.get("dec:facts:" + f[1], 0) + 1
+                if f16_shape(c):
+                    d["dec:F16-shape"] = d.get("dec:F16-shape", 0) + 1
         if k == "tenc":
             d["tenc:" + f[1]] = d.get("tenc:" + f[1], 0) + 1
     return d
+
+
+F16_ENCODINGS = ("Big5", "EUC-KR", "Shift_JIS")
+
+
+def f16_shape(case):
+    """a multi-byte `dec` case (with index facts) that feeds an EMPTY piece right after a possible lead byte to one of
+    encoding_rs' two-byte macro decoders: known finding F16 (encoding_rs drops a pending lead byte on an
+    empty feed; hook-only). The WHATWG machine of the model does not, so model and implementation are
+    EXPECTED to differ exactly there; the Rust oracle tags the cases where it bites."""
+    f = case.split(" ")
+    if len(f) != 7 or f[0] != "dec" or f[1] not in F16_ENCODINGS:
+        return False
+    data = bytes.fromhex(f[4]) if f[4] != "-" else b""
+    n = len(data)
+    cuts = [min(int(c), n) for c in f[5].split(",")] if f[5] != "-" else []
+    bounds = [0] + cuts + [n]
+    # an empty piece at offset p > 0 right after a byte that can be a lead (>= 0x81): only then can a lead
+    # be pending when the empty slice is fed
+    return any(bounds[i + 1] <= bounds[i] and bounds[i] > 0 and data[bounds[i] - 1] >= 0x81
+               for i in range(1, len(bounds) - 1))
+
+
+def project(pid, case, line):
+    return "F16-shape (not compared; see known finding F16)" if f16_shape(case) else line
 
 
 def nontrivial(case, obs):
